@@ -83,6 +83,14 @@ Theorem no_deadlock :
 Proof. exact C06_Global.no_deadlock_global. Qed.
 Print Assumptions no_deadlock.
 
+(* the buffered queue of runAnalyzers (capacity len(all)) never blocks a sender: it never holds more messages
+   than there are analyzer actions *)
+Theorem queue_never_full :
+  forall R top strict G, wf_dag G ->
+  forall tr s, lrun R top strict G tr s -> length (queue s) <= length (nodes G).
+Proof. exact C06_Level.queue_bound_run. Qed.
+Print Assumptions queue_never_full.
+
 (* the semaphore never exceeds its capacity; free tokens + handlers holding one = capacity *)
 Theorem tokens_conserved :
   forall Rp Ra strict GG cap, wf_dag (gtopd GG) -> 1 <= cap ->
